@@ -41,38 +41,160 @@ def parseActions (j : Option J) : Except PErr (List ActionRef) :=
   | none => .ok []
   | some v => if !truthy v then .ok [] else (ensureList v).mapM parseAction
 
-partial def parseGuard (j : J) : Except PErr GuardExpr :=
+-- sizes of sub-values (termination of the recursive parsers) ---------------------
+theorem J.find_sizeOf_lt (kvs : List (String × J)) (k : String) (v : J)
+    (h : (kvs.find? (fun kv => kv.1 == k)).map (·.2) = some v) : sizeOf v < sizeOf kvs := by
+  induction kvs with
+  | nil => simp at h
+  | cons hd rest ih =>
+    obtain ⟨k', v'⟩ := hd
+    simp only [List.find?] at h
+    split at h
+    · simp at h; subst h; simp; omega
+    · have := ih h; simp; omega
+
+theorem J.get?_sizeOf_lt (j : J) (k : String) (v : J) (h : j.get? k = some v) :
+    sizeOf v < sizeOf j := by
+  cases j <;> simp [J.get?] at h
+  case obj kvs =>
+    have := J.find_sizeOf_lt kvs k v (by simpa using h)
+    simp; omega
+
+theorem ensureList_sizeOf_le (v c : J) (h : c ∈ ensureList v) : sizeOf c ≤ sizeOf v := by
+  cases v <;> simp [ensureList] at h
+  case arr xs => have := List.sizeOf_lt_of_mem h; simp; omega
+  all_goals (subst h; exact Nat.le_refl _)
+
+/-- Python `o.get(k) or []`, read as a list of operands -/
+def truthyList (o : J) (k : String) : List J :=
+  match o.get? k with | some v => if truthy v then ensureList v else [] | none => []
+
+theorem truthyList_sizeOf_lt (o : J) (k : String) (c : J) (h : c ∈ truthyList o k) :
+    sizeOf c < sizeOf o := by
+  unfold truthyList at h
+  split at h
+  · rename_i v hv
+    split at h
+    · have h1 := ensureList_sizeOf_le v c h
+      have h2 := J.get?_sizeOf_lt o k v hv
+      omega
+    · simp at h
+  · simp at h
+
+/-- the `type` of a guard object -/
+def guardTypeOf (o : J) : Except PErr String :=
+  match o.get? "type" with
+  | some (.str s) => if s = "" then .error "InvalidConfigError: guard object must have a non-empty string 'type'" else pure s
+  | _ => .error "InvalidConfigError: guard object must have a non-empty string 'type'"
+
+/-- operands written inside `params`: `params.guards or params.children or []` -/
+def paramsOperands : Option J → List J
+  | some (.obj pk) =>
+    let po := J.obj pk
+    match po.get? "guards" with
+    | some v => if truthy v then ensureList v else truthyList po "children"
+    | none => truthyList po "children"
+  | _ => []
+
+/-- the single nested guard `params.guard` (when present and not null) -/
+def paramsGuard : Option J → List J
+  | some (.obj pk) => (match (J.obj pk).get? "guard" with | some .null => [] | some g => [g] | none => [])
+  | _ => []
+
+/-- the raw operand list of a guard object (`children_cfg`): `children`, else `params.guards`,
+else `params.children`, else (composite types only) the single `params.guard` -/
+def guardChildrenJ (o : J) (isComposite : Bool) : List J :=
+  let params := o.get? "params"
+  let c1 : List J := truthyList o "children"
+  let c2 : List J := if !c1.isEmpty then c1 else paramsOperands params
+  let c3 : List J := if !c2.isEmpty || !isComposite then c2 else paramsGuard params
+  c3
+
+theorem paramsOperands_sizeOf_lt (p c : J) (h : c ∈ paramsOperands (some p)) : sizeOf c < sizeOf p := by
+  unfold paramsOperands at h
+  split at h
+  · rename_i pk heq
+    cases heq
+    simp only at h
+    split at h
+    · rename_i v hv
+      split at h
+      · have h1 := ensureList_sizeOf_le v c h
+        have h2 := J.get?_sizeOf_lt _ _ v hv
+        omega
+      · exact truthyList_sizeOf_lt _ _ c h
+    · exact truthyList_sizeOf_lt _ _ c h
+  · simp at h
+
+theorem paramsGuard_sizeOf_lt (p c : J) (h : c ∈ paramsGuard (some p)) : sizeOf c < sizeOf p := by
+  unfold paramsGuard at h
+  split at h
+  · rename_i pk heq
+    cases heq
+    split at h
+    · simp at h
+    · rename_i g _ hg
+      have := J.get?_sizeOf_lt _ _ g hg
+      simp at h; subst h; exact this
+    · simp at h
+  · simp at h
+
+theorem guardChildrenJ_sizeOf_lt (o : J) (ic : Bool) (c : J) (h : c ∈ guardChildrenJ o ic) :
+    sizeOf c < sizeOf o := by
+  have hpo : ∀ c, c ∈ paramsOperands (o.get? "params") → sizeOf c < sizeOf o := by
+    intro c h
+    cases hp : o.get? "params" with
+    | none => simp [hp, paramsOperands] at h
+    | some p =>
+      rw [hp] at h
+      have := paramsOperands_sizeOf_lt p c h
+      have := J.get?_sizeOf_lt o _ p hp
+      omega
+  have hpg : ∀ c, c ∈ paramsGuard (o.get? "params") → sizeOf c < sizeOf o := by
+    intro c h
+    cases hp : o.get? "params" with
+    | none => simp [hp, paramsGuard] at h
+    | some p =>
+      rw [hp] at h
+      have := paramsGuard_sizeOf_lt p c h
+      have := J.get?_sizeOf_lt o _ p hp
+      omega
+  unfold guardChildrenJ at h
+  simp only at h
+  repeat' split at h
+  all_goals first
+    | exact truthyList_sizeOf_lt _ _ c h
+    | exact hpo c h
+    | exact hpg c h
+
+/-- the last step of `GuardDefinition.__init__`: shape checks and classification -/
+def finishGuard (ty : String) (params : Option J) (children : List GuardExpr) : Except PErr GuardExpr :=
+  let isComposite := ty = "and" || ty = "or" || ty = "not"
+  if isComposite then
+    if children.isEmpty then .error s!"InvalidConfigError: composite guard '{ty}' requires at least one nested guard"
+    else if ty = "not" then
+      match children with
+      | [c] => pure (.not c)
+      | _ => .error "InvalidConfigError: guard 'not' requires exactly one nested guard"
+    else if ty = "and" then pure (.and children) else pure (.or children)
+  else if ty = "stateIn" then pure (.stateIn params)
+  else pure (.named ty params)
+
+/-- `GuardDefinition.__init__`; total, by recursion on the size of the JSON value -/
+def parseGuard (j : J) : Except PErr GuardExpr :=
   match j with
-  | .str s => .ok (.named s none)          -- a bare string is never composite; "stateIn" bare string is stateIn w/o params
+  -- a bare string is never composite; `is_state_in = (type == "stateIn")` holds for bare strings too
+  | .str s => .ok (if s = Tables.stateInGuardType then .stateIn none else .named s none)
   | .obj kvs => do
     let o := J.obj kvs
-    let ty ← match o.get? "type" with
-      | some (.str s) => if s = "" then .error "InvalidConfigError: guard object must have a non-empty string 'type'" else pure s
-      | _ => .error "InvalidConfigError: guard object must have a non-empty string 'type'"
-    let params := o.get? "params"
+    let ty ← guardTypeOf o
     let isComposite := ty = "and" || ty = "or" || ty = "not"
-    let c1 : List J := match o.get? "children" with | some v => if truthy v then ensureList v else [] | none => []
-    let c2 : List J := if !c1.isEmpty then c1 else match params with
-      | some (.obj pk) =>
-        let po := J.obj pk
-        match po.get? "guards" with
-        | some v => if truthy v then ensureList v else (match po.get? "children" with | some w => if truthy w then ensureList w else [] | none => [])
-        | none => (match po.get? "children" with | some w => if truthy w then ensureList w else [] | none => [])
-      | _ => []
-    let c3 : List J := if !c2.isEmpty || !isComposite then c2 else match params with
-      | some (.obj pk) => (match (J.obj pk).get? "guard" with | some .null => [] | some g => [g] | none => [])
-      | _ => []
-    let children ← c3.mapM parseGuard
-    if isComposite then
-      if children.isEmpty then .error s!"InvalidConfigError: composite guard '{ty}' requires at least one nested guard"
-      else if ty = "not" then
-        match children with
-        | [c] => pure (.not c)
-        | _ => .error "InvalidConfigError: guard 'not' requires exactly one nested guard"
-      else if ty = "and" then pure (.and children) else pure (.or children)
-    else if ty = "stateIn" then pure (.stateIn params)
-    else pure (.named ty params)
+    let children ← (guardChildrenJ o isComposite).attach.mapM (fun c => parseGuard c.1)
+    finishGuard ty (o.get? "params") children
   | _ => .error "InvalidConfigError: guard must be a string or a dictionary"
+termination_by sizeOf j
+decreasing_by
+  exact guardChildrenJ_sizeOf_lt (J.obj kvs) _ c.1 c.2
 
 /-- bare-string "stateIn" is_state_in too (type == "stateIn") -/
 def fixBareStateIn : GuardExpr → GuardExpr
@@ -88,13 +210,20 @@ abbrev PM := StateT PState (Except PErr)
 def freshTid : PM Nat := do
   let s ← get; set { s with nextTid := s.nextTid + 1 }; pure s.nextTid
 
+/-- `config.get("guard", config.get("cond"))`: the v4 key `cond` is read when there is no
+`guard` key -/
+def rawGuardOf (cfg : J) : Option J :=
+  if cfg.hasKey "guard" then cfg.get? "guard" else cfg.get? "cond"
+
+/-- `GuardDefinition(raw_guard) if raw_guard is not None else None` -/
+def parseGuardOpt : Option J → Except PErr (Option GuardExpr)
+  | none => pure none
+  | some .null => pure none
+  | some g => do let ge ← parseGuard g; pure (some (fixBareStateIn ge))
+
 def parseTransition (event : String) (cfg : J) : PM Trans := do
   let actions ← (parseActions (cfg.get? "actions") : Except PErr _)
-  let rawGuard := if cfg.hasKey "guard" then cfg.get? "guard" else cfg.get? "cond"
-  let guard ← match rawGuard with
-    | none => pure none
-    | some .null => pure none
-    | some g => do let ge ← (parseGuard g : Except PErr _); pure (some (fixBareStateIn ge))
+  let guard ← (parseGuardOpt (rawGuardOf cfg) : Except PErr _)
   let target := match cfg.get? "target" with | some (.str s) => some s | _ => none   -- TODO non-string targets
   let reenter := match cfg.get? "reenter" with | some v => truthy v | none => false
   let forbidden := match cfg.get? "__forbidden__" with | some v => truthy v | none => false
@@ -110,7 +239,31 @@ def isHistoryCfg : J → Bool
 
 def joinId (pid key : String) : String := pid ++ "." ++ key
 
-partial def parseState (cfg : J) (key : String) (sid : String) (path : Path) (isRoot : Bool) : PM SNode := do
+/-- the raw child-state configs of a state config, in document order -/
+def stateKidsJ (cfg : J) : List (String × J) :=
+  match (cfg.get? "states").getD (.obj []) with
+  | .obj kvs => kvs
+  | _ => []
+
+theorem stateKidsJ_sizeOf_lt (cfg : J) (kc : String × J) (h : kc ∈ stateKidsJ cfg) :
+    sizeOf kc.2 < sizeOf cfg := by
+  unfold stateKidsJ at h
+  cases hs : cfg.get? "states" with
+  | none => simp [hs] at h
+  | some v =>
+    have h1 := J.get?_sizeOf_lt cfg _ v hs
+    simp only [hs, Option.getD_some] at h
+    split at h
+    · rename_i kvs
+      have h2 := List.sizeOf_lt_of_mem h
+      obtain ⟨k, c⟩ := kc
+      simp at h2 h1 ⊢
+      omega
+    · simp at h
+
+/-- everything `StateNode.__init__` does for one state except building its child nodes
+(the shape of `states` is validated here; the children themselves are parsed by `parseState`) -/
+def parseStateDef (cfg : J) (sid : String) (path : Path) (isRoot : Bool) : PM StateDef := do
   -- custom id
   let mut customId : Option String := none
   if !isRoot then
@@ -205,8 +358,7 @@ partial def parseState (cfg : J) (key : String) (sid : String) (path : Path) (is
       let src := match ic.get? "src" with | some (.str s) => some s | _ => none
       invoke := invoke ++ [{ id := iid, src, onDone := od, onError := oe }]
     | _ => throw s!"InvalidConfigError: state '{sid}' has an invalid 'invoke' entry"
-  -- children
-  let mut kids : List (String × SNode) := []
+  -- children: shape checks only
   match statesJ with
   | .obj kvs =>
     for (k, c) in kvs do
@@ -216,12 +368,20 @@ partial def parseState (cfg : J) (key : String) (sid : String) (path : Path) (is
       if k.contains '.' then
         let head := (splitDot k).headD ""
         if kvs.any (fun kv => kv.1 == head) then throw s!"InvalidConfigError: state key '{k}' in '{sid}' is ambiguous"
-    for (k, c) in kvs do
-      let child ← parseState c k (joinId sid k) (path ++ [k]) false
-      kids := (kids.filter (fun kc => kc.1 != k)) ++ [(k, child)]
   | _ => throw s!"InvalidConfigError: state '{sid}' has an invalid 'states' value"
-  let d : StateDef := { kind, initial, entry, exit, on, onDone, after, invoke, deep, historyTarget, customId, tags }
+  pure { kind, initial, entry, exit, on, onDone, after, invoke, deep, historyTarget, customId, tags }
+
+/-- `StateNode.__init__`; total, by recursion on the size of the JSON value -/
+def parseState (cfg : J) (key : String) (sid : String) (path : Path) (isRoot : Bool) : PM SNode := do
+  let d ← parseStateDef cfg sid path isRoot
+  -- children (`stateKidsJ cfg` is the `kvs` of the `states` object validated by `parseStateDef`)
+  let mut kids : List (String × SNode) := []
+  for _h : kc in stateKidsJ cfg do
+    let child ← parseState kc.2 kc.1 (joinId sid kc.1) (path ++ [kc.1]) false
+    kids := (kids.filter (fun x => x.1 != kc.1)) ++ [(kc.1, child)]
   pure (.mk d kids)
+termination_by sizeOf cfg
+decreasing_by exact stateKidsJ_sizeOf_lt cfg kc _h
 
 def parseMachine (cfg : J) : Except PErr Machine := do
   match cfg with
